@@ -68,6 +68,35 @@ func (c *Ctx) iterMustPass(rule, keyPrefix string, fn *ssa.Function, what string
 	}
 	calls := ssau.CallsIn(fn, pred)
 	if len(calls) == 0 {
+		// the element loop may have been extracted into a helper of the same package: then the rule must hold
+		// inside the helper and the helper's verdict must be checked here
+		if c.iterDepth < 2 {
+			for _, b := range fn.Blocks {
+				for _, in := range b.Instrs {
+					cl, ok := in.(*ssa.Call)
+					if !ok {
+						continue
+					}
+					h := cl.Call.StaticCallee()
+					if h == nil || h.Pkg == nil || h == fn || len(h.Blocks) == 0 || len(ssau.CallsIn(h, pred)) == 0 {
+						continue
+					}
+					root := fn
+					for root.Parent() != nil {
+						root = root.Parent()
+					}
+					if h.Pkg != root.Pkg {
+						continue
+					}
+					c.iterDepth++
+					ssau.WithParamSubst(cl, func() { c.iterMustPass(rule, keyPrefix, h, what, pred, passVal) })
+					c.iterDepth--
+					hp := func(cm *ssa.CallCommon) bool { return cm.StaticCallee() == h }
+					c.G1s(rule, keyPrefix+"|helper "+h.Name()+" checked", fn, h.Name(), hp, G1Opt{PassVal: passVal})
+					return
+				}
+			}
+		}
 		c.R.Check(rule, keyPrefix+"|calls", false, c.pos(fn.Pos()), "no call to "+what)
 		return
 	}
